@@ -1,10 +1,806 @@
-//! C37 — not built yet.
+//! C37 Each repository is fetched at most once per run.
+//!
+//! 2–4 "validation threads" call the real `collector::Run::repository(&ca_cert)` (followed by
+//! `Repository::load_object`) for CA certificates whose caRepository lies in the same or in
+//! different rsync modules, under a harness-owned schedule over the try-lock yield points of the
+//! collector's `updated` / `running` / per-module mutex / metrics bookkeeping. The transport is the
+//! fake rsync binary `rvrsync` (a real subprocess started by the unmodified `RsyncCommand`), whose
+//! log file counts the invocations per module. Before every run the fake server publishes a new
+//! version of every object while the local copy still holds the previous one.
+//!
+//! Oracles (property statement): (1) per run, every module is fetched at most once (rvrsync log and
+//! the run's rsync metrics); (2) every user gets the repository only after that fetch finished:
+//! the object it reads right after `repository()` returned is the server's current version, never
+//! the stale local copy, a missing or a partial file; plus: exactly one fetch for a module that was
+//! requested at all, no panic, no deadlock.
+//!
+//! Sub-checks: `dfs` (all schedules of small programs), `sched` (generated programs + generated
+//! schedules), `stress` (uncontrolled threads with a fetch that takes 30 ms, best effort), `engine`
+//! (whole validation runs of the real engine with eight validation threads over CA forests whose
+//! publication points share few rsync modules; fetches counted per module, un-hooked).
+
+use std::collections::BTreeMap;
+use std::path::{Path, PathBuf};
+use std::sync::{Arc, Mutex};
+
+use proptest::prelude::*;
+use routinator::collector::Collector;
+use routinator::config::Config;
+use routinator::engine::CaCert;
+use routinator::metrics::Metrics;
+use rpki::repository::cert::Cert;
+use rpki::repository::tal::{TalInfo, TalUri};
+use rpki::repository::x509::Time;
+use serde::{Deserialize, Serialize};
 
 use crate::core::*;
+use crate::erpki::uri_rsync;
+use crate::hsched::Bounded;
+use crate::rpkigen as gen;
+use crate::sched::{self, BytesChooser, Chooser, Dfs, Event, Job, Opts};
 
-pub const IMPLEMENTED: bool = false;
+pub const KNOWN_DOUBLE: &str = "C37/rsync/double-fetch/marker-removed-before-updated";
 
-pub fn run(_ctx: &Ctx, _rep: &mut Report, _replay: Option<&serde_json::Value>) {
-    eprintln!("C37: check not implemented");
-    std::process::exit(2);
+// Locks held across yield points: the per-module mutex (both collectors) and, in the RRDP
+// collector, the read guard of `updated` that lives through the `if let` body which removes the
+// `running` entry. So a thread can really be blocked at `sync.mutex.lock` and at
+// `sync.rwlock.write`; on the other hand `running.write()` / `updated.write()` follow each other
+// with the same label. The scheduler is therefore run with `stutter_after: 2` (a thread counts as
+// blocked only when it comes back to the same label twice in a row).
+
+/// CA number -> (host, module, directory). CAs 0,1,4 share one module, 2 is another module on the
+/// same host, 3 and 5 live on another host (5 in the same module as 3).
+pub const CAS: [(&str, &str, &str); 9] = [
+    ("m0.rv.test", "repo", "ca0"),
+    ("m0.rv.test", "repo", "ca1"),
+    ("m0.rv.test", "alt", "ca2"),
+    ("m1.rv.test", "repo", "ca3"),
+    ("m0.rv.test", "repo", "ca4/deep"),
+    ("m1.rv.test", "repo", "ca5"),
+    // CAs 6.. publish through RRDP (rpkiNotify https://<host>/notify.xml): 6 and 7 share a repository
+    ("r0.rpki.test", "repo", "ca6"),
+    ("r0.rpki.test", "repo", "ca7"),
+    ("r1.rpki.test", "repo", "ca8"),
+];
+/// Number of rsync-only CAs (the first ones in `CAS`).
+pub const N_RSYNC: usize = 6;
+
+fn is_rrdp(ca: usize) -> bool {
+    ca >= N_RSYNC
+}
+
+/// The repository a CA is fetched from: rsync module `host/module` or `rrdp:host`.
+fn module_of(ca: usize) -> String {
+    if is_rrdp(ca) {
+        format!("rrdp:{}", CAS[ca].0)
+    } else {
+        format!("{}/{}", CAS[ca].0, CAS[ca].1)
+    }
+}
+
+fn object_uri(ca: usize) -> String {
+    format!("rsync://{}/{}/{}/obj.bin", CAS[ca].0, CAS[ca].1, CAS[ca].2)
+}
+
+#[derive(Serialize, Deserialize, Clone, Debug)]
+pub struct Case {
+    /// per thread: the CAs it asks the collector for, in order
+    pub threads: Vec<Vec<u8>>,
+    /// schedule (`sched::BytesChooser`)
+    pub choices: Vec<u8>,
+}
+
+struct World {
+    https: crate::c37net::MiniHttps,
+    dir: tempfile::TempDir,
+    collector: &'static Collector,
+    cas: Vec<Arc<CaCert>>,
+    version: std::cell::Cell<u64>,
+}
+
+fn content(version: u64, ca: usize) -> Vec<u8> {
+    // long enough that a partially written file is distinguishable
+    let mut v = format!("v{} ca{} {}\n", version, ca, object_uri(ca)).into_bytes();
+    while v.len() < 4096 {
+        let l = v.len();
+        v.push(b'a' + (l % 23) as u8);
+    }
+    v
+}
+
+impl World {
+    fn srv(&self) -> PathBuf {
+        self.dir.path().join("srv")
+    }
+    fn log(&self) -> PathBuf {
+        self.dir.path().join("rsync.log")
+    }
+
+    fn config(dir: &Path, command: &Path, https: &crate::c37net::MiniHttps) -> Config {
+        let mut c = Config::default_with_paths(dir.join("routinator.conf"), dir.join("cache"));
+        c.no_rir_tals = true;
+        c.disable_rrdp = false;
+        c.rrdp_root_certs = vec![crate::c37net::ca_path()];
+        c.rrdp_proxies = vec![https.proxy_url()];
+        c.rrdp_timeout = Some(std::time::Duration::from_secs(30));
+        c.rrdp_connect_timeout = Some(std::time::Duration::from_secs(10));
+        c.rsync_command = command.to_string_lossy().into_owned();
+        c.rsync_args = Some(vec![format!("--rv-root={}", dir.join("srv").display()), format!("--rv-log={}", dir.join("rsync.log").display())]);
+        c.rsync_timeout = Some(std::time::Duration::from_secs(60));
+        c
+    }
+
+    fn new(ctx: &Ctx, slow: bool) -> World {
+        let dir = ctx.scratch();
+        for d in ["srv", "cache"] {
+            std::fs::create_dir_all(dir.path().join(d)).unwrap();
+        }
+        let rvrsync = std::env::current_exe().expect("exe").parent().unwrap().join("rvrsync");
+        let command = if slow {
+            // a transfer that takes a while: the data arrives only at the end
+            let script = dir.path().join("slow-rsync.sh");
+            std::fs::write(&script, format!("#!/bin/sh\nfor a in \"$@\"; do if [ \"$a\" = \"-h\" ]; then exec {} -h; fi; done\nsleep 0.03\nexec {} \"$@\"\n", rvrsync.display(), rvrsync.display())).unwrap();
+            use std::os::unix::fs::PermissionsExt;
+            std::fs::set_permissions(&script, std::fs::Permissions::from_mode(0o755)).unwrap();
+            script
+        } else {
+            rvrsync
+        };
+        let https = crate::c37net::MiniHttps::start();
+        let config = Self::config(dir.path(), &command, &https);
+        let mut collector = Collector::new(&config).expect("collector");
+        collector.ignite().expect("ignite");
+        // `Run<'a>` borrows the collector; the jobs of a schedule are 'static, so the collector of
+        // this check run is leaked once.
+        let collector: &'static Collector = Box::leak(Box::new(collector));
+        let now = Time::now();
+        let cas = (0..CAS.len())
+            .map(|i| {
+                let repo = uri_rsync(&format!("rsync://{}/{}/{}/", CAS[i].0, CAS[i].1, CAS[i].2));
+                let mft = uri_rsync(&format!("rsync://{}/{}/{}/ca.mft", CAS[i].0, CAS[i].1, CAS[i].2));
+                let res = gen::Res { v4: vec![(std::net::Ipv4Addr::new(10, i as u8, 0, 0), 16)], v6: vec![], asn: vec![(64500 + i as u32, 64500 + i as u32)] };
+                let notify = is_rrdp(i).then(|| rpki::uri::Https::from_string(format!("https://{}/notify.xml", CAS[i].0)).unwrap());
+                let der = gen::issue_ta(i, &res, gen::validity(now, -86400, 86400 * 30), &repo, &mft, notify.as_ref(), 1 + i as u128);
+                let cert = Cert::decode(der).expect("own TA decodes");
+                let cert = cert.validate_ta(TalInfo::from_name(format!("ta{}", i)).into_arc(), false).expect("validate_ta");
+                CaCert::root(cert, TalUri::from_string(format!("rsync://{}/{}/ta{}.cer", CAS[i].0, CAS[i].1, i)).unwrap(), i).expect("CaCert::root")
+            })
+            .collect();
+        World { https, dir, collector, cas, version: std::cell::Cell::new(0) }
+    }
+
+    /// The server publishes the next version of every object; the fetch log starts empty.
+    fn next_version(&self) -> u64 {
+        let v = self.version.get() + 1;
+        self.version.set(v);
+        for ca in 0..N_RSYNC {
+            let dir = self.srv().join(CAS[ca].0).join(CAS[ca].1).join(CAS[ca].2);
+            if v == 1 {
+                std::fs::create_dir_all(&dir).unwrap();
+            }
+            std::fs::write(dir.join("obj.bin"), content(v, ca)).unwrap();
+        }
+        let _ = std::fs::remove_file(self.log());
+        // RRDP repositories: a new session per version, so every run has to take the snapshot
+        let hosts: std::collections::BTreeSet<&str> = (N_RSYNC..CAS.len()).map(|ca| CAS[ca].0).collect();
+        for (k, host) in hosts.into_iter().enumerate() {
+            let session = uuid::Uuid::from_u128(((v as u128) << 8) | k as u128);
+            let elements = (N_RSYNC..CAS.len()).filter(|ca| CAS[*ca].0 == host).map(|ca| rpki::rrdp::PublishElement::new(uri_rsync(&object_uri(ca)), bytes::Bytes::from(content(v, ca)))).collect();
+            let mut snapshot = Vec::new();
+            rpki::rrdp::Snapshot::new(session, v, elements).write_xml(&mut snapshot).expect("snapshot xml");
+            let info = rpki::rrdp::UriAndHash::new(rpki::uri::Https::from_string(format!("https://{}/snapshot.xml", host)).unwrap(), rpki::rrdp::Hash::from_data(&snapshot));
+            let mut notification = Vec::new();
+            rpki::rrdp::NotificationFile::new(session, v, info, Vec::new()).write_xml(&mut notification).expect("notification xml");
+            self.https.set(host, "/snapshot.xml", snapshot);
+            self.https.set(host, "/notify.xml", notification);
+        }
+        self.https.clear_log();
+        v
+    }
+
+    /// Preamble: one sequential RRDP fetch and one rsync fetch must work, otherwise the fixture is
+    /// broken (infrastructure failure, not a verdict).
+    fn selftest(&self) {
+        let v = self.next_version();
+        let run = self.collector.start();
+        for ca in [6usize, 0] {
+            let repo = run.repository(&self.cas[ca]).ok().flatten().unwrap_or_else(|| panic!("self-test: no repository for CA {} (fetches {:?})", ca, self.fetch_counts()));
+            assert_eq!(repo.is_rrdp(), is_rrdp(ca), "self-test: CA {} served through the wrong transport (fetches {:?})", ca, self.fetch_counts());
+            let data = repo.load_object(&uri_rsync(&object_uri(ca))).ok().flatten().map(|d| d.to_vec());
+            assert_eq!(data, Some(content(v, ca)), "self-test: object of CA {} not as published", ca);
+        }
+    }
+
+    fn fetch_counts(&self) -> BTreeMap<String, usize> {
+        let mut m = BTreeMap::new();
+        if let Ok(text) = std::fs::read_to_string(self.log()) {
+            for l in text.lines() {
+                *m.entry(l.trim().to_string()).or_default() += 1;
+            }
+        }
+        // an RRDP repository counts as fetched once per request for its notification file
+        for ((host, path), n) in self.https.counts() {
+            if path == "/notify.xml" {
+                *m.entry(format!("rrdp:{}", host)).or_default() += n;
+            } else if n > 1 {
+                *m.entry(format!("rrdp-file:{}{}", host, path)).or_default() += n;
+            }
+        }
+        m
+    }
+}
+
+/// What one `repository()` + `load_object()` call observed.
+#[derive(Clone, Debug)]
+struct Got {
+    tid: usize,
+    ca: usize,
+    /// false = `repository()` returned no repository
+    repo: bool,
+    via_rrdp: bool,
+    data: Option<Vec<u8>>,
+}
+
+fn jobs_for(case: &Case, world: &World, run: &Arc<routinator::collector::Run<'static>>, got: &Arc<Mutex<Vec<Got>>>) -> Vec<Job> {
+    case.threads
+        .iter()
+        .enumerate()
+        .map(|(tid, list)| {
+            let list = list.clone();
+            let run = run.clone();
+            let got = got.clone();
+            let cas = world.cas.clone();
+            Box::new(move || {
+                for ca in list {
+                    let ca = ca as usize % CAS.len();
+                    sched::note(format!("req {}", ca));
+                    let res = run.repository(&cas[ca]);
+                    let g = match res {
+                        Ok(Some(repo)) => {
+                            let data = repo.load_object(&uri_rsync(&object_uri(ca))).ok().flatten();
+                            Got { tid, ca, repo: true, via_rrdp: repo.is_rrdp(), data: data.map(|d| d.to_vec()) }
+                        }
+                        _ => Got { tid, ca, repo: false, via_rrdp: false, data: None },
+                    };
+                    sched::note(format!("got {}", ca));
+                    got.lock().unwrap().push(g);
+                }
+            }) as Job
+        })
+        .collect()
+}
+
+/// The lock steps of one `load_module` call, recovered from the trace.
+#[derive(Debug, Default, Clone)]
+struct Call {
+    tid: usize,
+    ca: usize,
+    /// `running.write().entry(..)`
+    entry: Option<usize>,
+    /// second `updated.read()` (after the module mutex was acquired); the fetch, if any, runs in this step
+    check2: Option<usize>,
+    /// writes after the fetch, in order (unchanged tree: remove from `running`, insert into `updated`)
+    post_writes: Vec<usize>,
+    fetched: bool,
+    /// failed attempts on the module mutex (the caller really waited for somebody else's fetch)
+    blocked: usize,
+}
+
+fn calls_of(trace: &[Event]) -> Vec<Call> {
+    let mut open: BTreeMap<usize, (Call, u8)> = BTreeMap::new();
+    let mut res = Vec::new();
+    for (i, ev) in trace.iter().enumerate() {
+        match ev {
+            Event::Note { tid, text } => {
+                if let Some(ca) = text.strip_prefix("req ") {
+                    open.insert(*tid, (Call { tid: *tid, ca: ca.parse().unwrap_or(0), ..Default::default() }, 0));
+                } else if text.starts_with("got ") {
+                    if let Some((c, _)) = open.remove(tid) {
+                        res.push(c);
+                    }
+                }
+            }
+            Event::Step { tid, label } => {
+                let Some((c, st)) = open.get_mut(tid) else { continue };
+                // states: 0 before check1, 1 before entry, 2 acquiring the module mutex, 3 before check2,
+                // 4 before metrics lock, 5 post writes
+                match (*st, *label) {
+                    (0, "sync.rwlock.read") => *st = 1,
+                    (1, "sync.rwlock.write") => {
+                        c.entry = Some(i);
+                        *st = 2;
+                    }
+                    (2, "sync.mutex.lock") => {
+                        // acquired if the next step of this thread is not another attempt; counted below
+                        c.blocked += 1;
+                    }
+                    (2, "sync.rwlock.read") => {
+                        c.blocked = c.blocked.saturating_sub(1);
+                        c.check2 = Some(i);
+                        *st = 4;
+                    }
+                    (4, "sync.mutex.lock") => {
+                        c.fetched = true;
+                        *st = 5;
+                    }
+                    (5, "sync.rwlock.write") => c.post_writes.push(i),
+                    _ => {}
+                }
+            }
+            Event::Done { .. } => {}
+        }
+    }
+    res
+}
+
+/// The known shape, as a fact about the schedule (independent of the outcome): some caller made
+/// its `running` entry for module M after a fetcher of M had removed its marker, and made its second
+/// `updated` check before that fetcher recorded completion.
+fn known_shape_modules(calls: &[Call]) -> Vec<String> {
+    let mut res = Vec::new();
+    for y in calls.iter().filter(|c| c.fetched && c.post_writes.len() == 2 && !is_rrdp(c.ca)) {
+        for x in calls.iter() {
+            if (x.tid, x.ca) == (y.tid, y.ca) || module_of(x.ca) != module_of(y.ca) {
+                continue;
+            }
+            if let (Some(e), Some(c2)) = (x.entry, x.check2) {
+                if e > y.post_writes[0] && c2 < y.post_writes[1] {
+                    res.push(module_of(y.ca));
+                }
+            }
+        }
+    }
+    res.sort();
+    res.dedup();
+    res
+}
+
+thread_local! {
+    static DIRECTED: std::cell::Cell<bool> = const { std::cell::Cell::new(false) };
+    static EXCLUDED: std::cell::Cell<u64> = const { std::cell::Cell::new(0) };
+}
+
+fn flush_excluded(rep: &mut Report) {
+    let n = EXCLUDED.with(|e| e.replace(0));
+    if n > 0 {
+        *rep.excluded_known.entry(KNOWN_DOUBLE.to_string()).or_default() += n;
+    }
+}
+
+fn execute(world: &World, case: &Case, chooser: &mut dyn Chooser, info: &mut CaseInfo) -> Verdict {
+    if case.threads.len() < 2 || case.threads.len() > 4 || case.threads.iter().any(|t| t.is_empty() || t.len() > 3) {
+        return Verdict::Dropped("case_out_of_domain".into());
+    }
+    let version = world.next_version();
+    let run = Arc::new(world.collector.start());
+    let got: Arc<Mutex<Vec<Got>>> = Default::default();
+    let out = sched::run_opts(jobs_for(case, world, &run, &got), chooser, &mut |_| Ok(()), &Opts { stutter_labels: None, stutter_after: 2 });
+    if let Some((tid, msg)) = out.panics.first() {
+        return Verdict::fail("C37/thread-panic", format!("thread {} panicked: {}", tid, msg));
+    }
+    if out.deadlock {
+        return Verdict::fail("C37/deadlock", format!("all threads blocked on locks; trace tail {:?}", out.trace.iter().rev().take(10).collect::<Vec<_>>()));
+    }
+    if out.diverged {
+        return Verdict::Dropped("schedule_step_bound".into());
+    }
+    let mut metrics = Metrics::new();
+    let metric_counts: BTreeMap<String, usize> = match Arc::try_unwrap(run) {
+        Ok(run) => {
+            run.done(&mut metrics);
+            let mut m = BTreeMap::new();
+            for r in &metrics.rsync {
+                let s = r.module.to_string();
+                *m.entry(s.trim_start_matches("rsync://").trim_end_matches('/').to_string()).or_default() += 1;
+            }
+            for r in &metrics.rrdp {
+                *m.entry(format!("rrdp:{}", r.notify_uri.canonical_authority())).or_default() += 1;
+            }
+            m
+        }
+        Err(_) => return Verdict::Dropped("run_still_shared".into()),
+    };
+    let counts = world.fetch_counts();
+    let calls = calls_of(&out.trace);
+    if std::env::var_os("RV_TRACE").is_some() {
+        eprintln!("trace: {}\ncalls: {:?}\ncounts: {:?}", crate::hsched::render_trace(&out.trace), calls, counts);
+    }
+    let got = std::mem::take(&mut *got.lock().unwrap());
+
+    // ---- coverage ----
+    let mut requested: BTreeMap<String, Vec<(usize, usize)>> = BTreeMap::new();
+    for (tid, list) in case.threads.iter().enumerate() {
+        for ca in list {
+            requested.entry(module_of(*ca as usize % CAS.len())).or_default().push((tid, *ca as usize % CAS.len()));
+        }
+    }
+    let shared = requested.values().filter(|v| v.iter().map(|x| x.0).collect::<std::collections::BTreeSet<_>>().len() >= 2).count();
+    let known_modules = known_shape_modules(&calls);
+    // non-trivial: a second requester of a module made its `running` entry after the fetcher had
+    // released the marker and before completion was recorded
+    let mut nt = false;
+    for y in calls.iter().filter(|c| c.fetched && c.post_writes.len() >= 2) {
+        for x in calls.iter() {
+            if (x.tid, x.ca) != (y.tid, y.ca) && module_of(x.ca) == module_of(y.ca) {
+                if let Some(e) = x.entry {
+                    if e > y.post_writes[0] && e < *y.post_writes.last().unwrap() {
+                        nt = true;
+                    }
+                }
+            }
+        }
+    }
+    info.nt(nt);
+    if nt {
+        info.class("nt:requester-between-marker-release-and-completion-record");
+    }
+    info.class(format!("threads={} repositories={} shared={}", case.threads.len(), requested.len(), shared.min(2)));
+    for m in requested.keys() {
+        info.class(if m.starts_with("rrdp:") { "transport=rrdp" } else { "transport=rsync" });
+    }
+    if calls.iter().any(|c| c.blocked > 0) {
+        info.class("a-requester-waited-on-the-module-mutex");
+    }
+    if calls.iter().any(|c| c.entry.is_none()) {
+        info.class("a-requester-took-the-fast-path");
+    }
+    if !known_modules.is_empty() {
+        info.class("known-shape:second-check-before-completion-record");
+    }
+
+    // ---- oracle 2: every user reads the data of the finished fetch ----
+    for g in &got {
+        let tr = if is_rrdp(g.ca) { "rrdp" } else { "rsync" };
+        if !g.repo {
+            return Verdict::fail(format!("C37/{}/no-repository", tr), format!("thread {}: repository() for CA {} returned no repository although its transport is enabled and the server is up; fetches {:?}", g.tid, g.ca, counts));
+        }
+        if g.via_rrdp != is_rrdp(g.ca) {
+            return Verdict::fail(format!("C37/{}/wrong-transport", tr), format!("thread {}: CA {} was served via {} ; fetches {:?}", g.tid, g.ca, if g.via_rrdp { "RRDP" } else { "rsync" }, counts));
+        }
+        let want = content(version, g.ca);
+        match &g.data {
+            Some(d) if *d == want => {}
+            Some(d) => {
+                let stale = version > 1 && *d == content(version - 1, g.ca);
+                let key = format!("C37/{}/read-before-fetch/{}", tr, if stale { "stale-copy" } else { "partial-or-foreign-data" });
+                return Verdict::fail(key, format!("thread {} read {} right after repository() returned: got {} bytes starting {:?}, the server publishes version {} ({} bytes); fetches {:?}", g.tid, object_uri(g.ca), d.len(), String::from_utf8_lossy(&d[..d.len().min(24)]), version, want.len(), counts));
+            }
+            None => {
+                return Verdict::fail(format!("C37/{}/read-before-fetch/object-missing", tr), format!("thread {} found no {} right after repository() returned; fetches {:?}", g.tid, object_uri(g.ca), counts));
+            }
+        }
+    }
+    if got.len() != case.threads.iter().map(|t| t.len()).sum::<usize>() {
+        return Verdict::Dropped("missing_observations".into());
+    }
+
+    // ---- oracle 1: at most (exactly) one fetch per requested module ----
+    for (module, users) in &requested {
+        let n = counts.get(module).copied().unwrap_or(0);
+        let m = metric_counts.get(module).copied().unwrap_or(0);
+        if n > 1 || m > 1 {
+            let is_known_shape = known_modules.contains(module) && !module.starts_with("rrdp:");
+            if is_known_shape && is_listed_known("C37", KNOWN_DOUBLE) && !DIRECTED.with(|d| d.get()) {
+                info.class("excluded:known-double-fetch-shape");
+                EXCLUDED.with(|e| e.set(e.get() + 1));
+                continue;
+            }
+            let key = if module.starts_with("rrdp:") {
+                "C37/rrdp/double-fetch".to_string()
+            } else if is_known_shape {
+                KNOWN_DOUBLE.to_string()
+            } else {
+                "C37/rsync/double-fetch/other-schedule".to_string()
+            };
+            return Verdict::fail(
+                key,
+                format!("repository {} was fetched {} times in one run (the run metrics list it {} times); users (thread, CA) {:?}; calls {:?}; trace: {}", module, n, m, users, calls, crate::hsched::render_trace(&out.trace)),
+            );
+        }
+        let tr = if module.starts_with("rrdp:") { "rrdp" } else { "rsync" };
+        if n == 0 {
+            return Verdict::fail(format!("C37/{}/never-fetched", tr), format!("repository {} was requested by {:?} but never fetched", module, users));
+        }
+        if m != n {
+            return Verdict::fail(format!("C37/{}/metrics-mismatch", tr), format!("repository {}: {} fetches, {} metric entries", module, n, m));
+        }
+    }
+    if let Some((module, n)) = counts.iter().find(|(m, _)| m.starts_with("rrdp-file:")) {
+        return Verdict::fail("C37/rrdp/double-fetch/snapshot", format!("{} was requested {} times in one run", module, n));
+    }
+    if let Some((module, _)) = counts.iter().find(|(m, _)| !requested.contains_key(*m)) {
+        return Verdict::fail("C37/unrequested-fetch", format!("repository {} fetched but never requested", module));
+    }
+    Verdict::Pass
+}
+
+fn prop_sched(world: &World, case: &Case, info: &mut CaseInfo) -> Verdict {
+    let mut ch = BytesChooser::new(&case.choices);
+    execute(world, case, &mut ch, info)
+}
+
+fn dfs_programs(tier: Tier) -> Vec<Case> {
+    let c = |threads: &[&[u8]]| Case { threads: threads.iter().map(|t| t.to_vec()).collect(), choices: vec![] };
+    let mut v = vec![
+        // two CAs of one module
+        c(&[&[0], &[1]]),
+        // a thread that comes back to the module later
+        c(&[&[0, 1], &[4]]),
+        // two CAs of one RRDP repository; RRDP and rsync side by side
+        c(&[&[6], &[7]]),
+        // different modules on one host
+        c(&[&[0], &[2]]),
+    ];
+    if tier == Tier::Thorough {
+        v.push(c(&[&[0], &[0]]));
+        // RRDP and rsync side by side
+        v.push(c(&[&[6], &[0]]));
+
+        v.push(c(&[&[0], &[3]]));
+        v.push(c(&[&[0, 3], &[5, 1]]));
+        v.push(c(&[&[0], &[1], &[4]]));
+        v.push(c(&[&[6, 8], &[7]]));
+        v.push(c(&[&[6], &[7], &[6]]));
+    }
+    v
+}
+
+fn run_dfs(ctx: &Ctx, rep: &mut Report, world: &World) {
+    // process creation dominates the cost of a schedule (one fake-rsync subprocess per fetch), so the
+    // quick tier enumerates all schedules with at most two preemptions; thorough enumerates all
+    let bound = ctx.tier.pick(2usize, usize::MAX);
+    let bound_rrdp = std::env::var("RV_BOUND_RRDP").ok().and_then(|v| v.parse().ok()).unwrap_or(ctx.tier.pick(3usize, usize::MAX));
+    let cap = ctx.tier.pick(2_500usize, 2_500);
+    let cap_other = ctx.tier.pick(250usize, 600);
+    let cap_rrdp = ctx.tier.pick(2_500usize, 4_000);
+    let mut per_program = Vec::new();
+    let mut all_exhausted = true;
+    let mut total = 0usize;
+    for prog in dfs_programs(ctx.tier) {
+        let started = std::time::Instant::now();
+        let mut dfs = Dfs::new();
+        let mut n = 0usize;
+        let mut exhausted = false;
+        loop {
+            let mut info = CaseInfo::default();
+            // RRDP-only programs are cheap (no subprocess): higher preemption bound
+            let rrdp_only = prog.threads.iter().flatten().all(|c| is_rrdp(*c as usize % CAS.len()));
+            let mut bounded = Bounded::new(&mut dfs, if rrdp_only { bound_rrdp } else { bound });
+            let verdict = execute(world, &prog, &mut bounded, &mut info);
+            n += 1;
+            let case = Case { choices: bounded.taken.clone(), ..prog.clone() };
+            rep.record(ctx, &Tagged { sub: "sched".to_string(), case }, &info, &verdict);
+            if rep.violated() {
+                flush_excluded(rep);
+                return;
+            }
+            if !dfs.advance() {
+                exhausted = true;
+                break;
+            }
+            // the programs over one shared module are the subject; the others are capped lower
+            let one_module = prog.threads.len() == 2 && prog.threads.iter().all(|t| t.len() == 1) && prog.threads.iter().flatten().map(|c| module_of(*c as usize % CAS.len())).collect::<std::collections::BTreeSet<_>>().len() == 1;
+            if n >= if rrdp_only { cap_rrdp } else if one_module { cap } else { cap_other } {
+                break;
+            }
+        }
+        total += n;
+        all_exhausted &= exhausted;
+        per_program.push(serde_json::json!({"threads": prog.threads, "schedules": n, "exhausted": exhausted, "wall_ms": started.elapsed().as_millis() as u64}));
+    }
+    flush_excluded(rep);
+    rep.extra.insert("dfs_schedules".into(), serde_json::json!(total));
+    rep.extra.insert("dfs_programs".into(), serde_json::json!(per_program));
+    rep.exhaustive = Some(all_exhausted && bound == usize::MAX);
+    rep.extra.insert("dfs_preemption_bound_rrdp_only_programs".into(), if bound_rrdp == usize::MAX { serde_json::json!("none") } else { serde_json::json!(bound_rrdp) });
+    rep.extra.insert("dfs_preemption_bound".into(), if bound == usize::MAX { serde_json::json!("none") } else { serde_json::json!(bound) });
+}
+
+fn case_strategy(rrdp_only: bool) -> impl Strategy<Value = Case> {
+    (2usize..=4).prop_flat_map(move |n| {
+        // mostly CAs of the shared module, sometimes others
+        let ca = prop_oneof![3 => Just(0u8), 3 => Just(1u8), 2 => Just(4u8), 1 => Just(2u8), 1 => Just(3u8), 1 => Just(5u8), 3 => Just(6u8), 3 => Just(7u8), 1 => Just(8u8)];
+        let ca = if rrdp_only { prop_oneof![3 => Just(6u8), 3 => Just(7u8), 1 => Just(8u8)].boxed() } else { ca.boxed() };
+        (prop::collection::vec(prop::collection::vec(ca, 1..=2), n..=n), prop::collection::vec(0u8..4, 0..60)).prop_map(|(threads, choices)| Case { threads, choices })
+    })
+}
+
+/// Directed representative of the known shape: thread 0 fetches and removes its marker, thread 1
+/// then enters, creates a fresh mutex and checks `updated` before thread 0 records completion.
+fn directed_known() -> Case {
+    // thread 0: start, check1, entry, mutex, check2+fetch, metrics, remove  = 7 steps, then thread 1
+    let mut choices = vec![0u8; 7];
+    choices.extend(std::iter::repeat(1u8).take(30));
+    Case { threads: vec![vec![0], vec![1]], choices }
+}
+
+//------------ uncontrolled stress -----------------------------------------------------------------
+
+fn run_stress(ctx: &Ctx, rep: &mut Report) {
+    let rounds = ctx.tier.pick(8usize, 60);
+    let world = World::new(ctx, true);
+    let nthreads = 8usize;
+    let mut overlapped = 0usize;
+    for round in 0..rounds {
+        let version = world.next_version();
+        let run = world.collector.start();
+        let barrier = std::sync::Barrier::new(nthreads);
+        let results: Vec<(usize, usize, Option<Vec<u8>>, std::time::Instant)> = std::thread::scope(|s| {
+            let hs: Vec<_> = (0..nthreads)
+                .map(|t| {
+                    let (run, barrier, cas) = (&run, &barrier, &world.cas);
+                    s.spawn(move || {
+                        barrier.wait();
+                        // stagger arrivals over the duration of the fetch
+                        std::thread::sleep(std::time::Duration::from_millis(((t * 7 + round * 3) % 40) as u64));
+                        let ca = [0usize, 1, 4, 0, 1, 3, 5, 4][t];
+                        let data = match run.repository(&cas[ca]) {
+                            Ok(Some(repo)) => repo.load_object(&uri_rsync(&object_uri(ca))).ok().flatten().map(|d| d.to_vec()),
+                            _ => None,
+                        };
+                        (t, ca, data, std::time::Instant::now())
+                    })
+                })
+                .collect();
+            hs.into_iter().map(|h| h.join().expect("stress thread")).collect()
+        });
+        let counts = world.fetch_counts();
+        let t_first = results.iter().map(|r| r.3).min().unwrap();
+        if results.iter().filter(|r| r.3.duration_since(t_first) < std::time::Duration::from_millis(5)).count() >= 2 {
+            overlapped += 1;
+        }
+        let mut bad: Option<(String, String)> = None;
+        for (t, ca, data, _) in &results {
+            if data.as_deref() != Some(&content(version, *ca)[..]) {
+                bad = Some(("C37/stress/read-before-fetch".into(), format!("round {}: thread {} read {:?} bytes for CA {} instead of version {}; fetches {:?}", round, t, data.as_ref().map(|d| d.len()), ca, version, counts)));
+            }
+        }
+        for (m, n) in &counts {
+            if *n > 1 {
+                // the unchanged tree can fetch twice through the known window; uncontrolled threads hit it rarely
+                let key = if is_listed_known("C37", KNOWN_DOUBLE) { KNOWN_DOUBLE.to_string() } else { "C37/stress/double-fetch".to_string() };
+                bad = Some((key, format!("round {}: module {} fetched {} times by uncontrolled threads", round, m, n)));
+            }
+        }
+        if let Some((key, msg)) = bad {
+            let case = Tagged { sub: "stress".to_string(), case: serde_json::json!({"round": round}) };
+            rep.failure(ctx, &case, &key, &msg);
+            if rep.violated() {
+                break;
+            }
+        }
+    }
+    rep.extra.insert("stress_rounds".into(), serde_json::json!(rounds));
+    rep.extra.insert("stress_rounds_with_simultaneous_release".into(), serde_json::json!(overlapped));
+}
+
+//------------ whole-engine runs (uncontrolled) ----------------------------------------------------
+
+/// A CA forest whose publication points share few rsync modules, validated by the real engine with
+/// eight validation threads: `layout` gives the module of every CA (CA 0 is the trust anchor, CA i>0
+/// hangs below CA (i-1)/`fanout`).
+#[derive(Serialize, Deserialize, Clone, Debug)]
+pub struct EngineCase {
+    pub modules: Vec<u8>,
+    pub fanout: u8,
+    pub runs: u8,
+}
+
+fn engine_scenario(case: &EngineCase) -> crate::erpki::Scenario {
+    use crate::erpki::*;
+    let n = case.modules.len().clamp(2, 12);
+    let fanout = case.fanout.clamp(1, 8) as usize;
+    let version = |k: usize| Version {
+        number: 5,
+        this_off: -7200,
+        next_off: 86400,
+        crl_next_off: 86400,
+        ee_after_off: 86400 * 7,
+        objs: vec![Obj { kind: ObjKind::Roa { extra: (k % 2) as u8, maxlen_delta: 0, v6: false }, not_after: 86400 * 7, fault: None }],
+        fault: None,
+    };
+    let cas = (0..n).map(|i| Ca { parent: if i == 0 { None } else { Some((i - 1) / fanout) }, key: i, module: case.modules[i] as usize % 3, not_after: 86400 * 365, cert_fault: None, versions: vec![version(i)], extra_res: None }).collect::<Vec<_>>();
+    let steps = vec![Step { publish: vec![0; n], fail_modules: vec![], offline: false, stale: None }];
+    Scenario { cfg: Cfg { threads: 8, ..Default::default() }, cas, steps }
+}
+
+fn prop_engine(ctx: &Ctx, case: &EngineCase, info: &mut CaseInfo) -> Verdict {
+    use crate::erpki::*;
+    let sc = engine_scenario(case);
+    let scratch = ctx.scratch();
+    let mut world = World::new(&sc, scratch.path());
+    world.publish(&sc.steps[0]);
+    let used: std::collections::BTreeSet<usize> = sc.cas.iter().map(|c| c.module).collect();
+    let sharing = sc.cas.len() - used.len();
+    info.class(format!("engine: cas={} modules={}", sc.cas.len(), used.len()));
+    info.nt(sharing >= 2);
+    for r in 0..case.runs.clamp(1, 4) {
+        let _ = std::fs::remove_file(world.rsync_log());
+        match world.run(false, &empty_exceptions()) {
+            Ok(out) => {
+                if r == 0 && out.payload.is_empty() {
+                    return Verdict::Dropped("engine_run_produced_nothing".into());
+                }
+            }
+            Err(e) => return Verdict::Dropped(format!("engine_run_failed:{}", truncate(&e, 40))),
+        }
+        let mut counts: BTreeMap<String, usize> = BTreeMap::new();
+        for l in parse_rsync_log(&world.rsync_log()) {
+            *counts.entry(l.trim().to_string()).or_default() += 1;
+        }
+        if let Some((m, n)) = counts.iter().find(|(_, n)| **n > 1) {
+            // uncontrolled threads can run into the known window of the rsync collector
+            let key = if is_listed_known("C37", KNOWN_DOUBLE) { KNOWN_DOUBLE.to_string() } else { "C37/engine/double-fetch".to_string() };
+            return Verdict::fail(key, format!("engine run {} (8 validation threads, {} CAs in {} modules): module {} fetched {} times; all fetches {:?}", r, sc.cas.len(), used.len(), m, n, counts));
+        }
+        for m in &used {
+            let name = format!("{}/repo", host(*m));
+            if !counts.contains_key(&name) {
+                return Verdict::fail("C37/engine/never-fetched", format!("engine run {}: module {} holds publication points but was not fetched; fetches {:?}", r, name, counts));
+            }
+        }
+    }
+    Verdict::Pass
+}
+
+fn engine_strategy() -> impl Strategy<Value = EngineCase> {
+    (prop::collection::vec(0u8..3, 6..=12), 1u8..=8, 1u8..=2).prop_map(|(mut modules, fanout, runs)| {
+        // most CAs share module 0
+        for (i, m) in modules.iter_mut().enumerate() {
+            if i % 3 != 2 {
+                *m = 0;
+            }
+        }
+        EngineCase { modules, fanout, runs }
+    })
+}
+
+pub fn run(ctx: &Ctx, rep: &mut Report, replay: Option<&serde_json::Value>) {
+    rep.rule("2-4 threads call the real collector::Run::repository(ca) + Repository::load_object for CA certificates (validated self-signed certificates issued by the harness) whose caRepository lies in one shared rsync module (3 CAs), another module on the same host (1) or another host (2); transport = fake rsync subprocess started by the unmodified RsyncCommand, its log counts invocations per module; before every run the server publishes a new version of every object (the local copy holds the previous one); schedules over the try-lock yield points of updated/running/module mutex/metrics: (dfs) every schedule of 5 two-thread programs (thorough +2, capped), (sched) generated programs 2-4 threads x 1-2 requests with generated choice strings, (stress) 8 uncontrolled threads against a fetch that takes 30 ms; oracle: per run every requested module fetched exactly once (log and rsync metrics), every object read right after repository() returned equals the server's current version; non-trivial = a second requester of a module makes its `running` entry between the fetcher's marker release and its completion record; distinct by program+schedule");
+    rep.assume("one controlled thread runs at a time; the fetch itself (subprocess) runs inside one scheduling step because RsyncCommand::update contains no yield point, so 'reading during a fetch' is only exercised by the uncontrolled stress rounds");
+    rep.assume("RRDP repositories are served by an in-harness HTTPS server reached through routinator's own HTTP client (rrdp-proxy = loopback CONNECT proxy, rrdp-root-cert = test CA); every run sees a new session, so the update is always notification + snapshot (delta processing is not part of this property)");
+    crate::hist::init_process();
+    if let Some(v) = replay {
+        let t: Tagged<serde_json::Value> = serde_json::from_value(v.clone()).expect("replay");
+        match t.sub.as_str() {
+            "sched" => {
+                let world = World::new(ctx, false);
+                DIRECTED.with(|d| d.set(true));
+                run_case(ctx, rep, "sched", &serde_json::from_value::<Case>(t.case).expect("case"), |c, i| prop_sched(&world, c, i));
+            }
+            "stress" => run_stress(ctx, rep),
+            "engine" => run_case(ctx, rep, "engine", &serde_json::from_value::<EngineCase>(t.case).expect("case"), |c, i| prop_engine(ctx, c, i)),
+            other => panic!("unknown sub {}", other),
+        }
+        return;
+    }
+    let world = World::new(ctx, false);
+    world.selftest();
+    // RV_SKIP_DIRECTED=1 (testing aid): let the bulk search find the shape on its own
+    if std::env::var_os("RV_SKIP_DIRECTED").is_none() {
+        DIRECTED.with(|d| d.set(true));
+        run_case(ctx, rep, "sched", &directed_known(), |c, i| prop_sched(&world, c, i));
+        DIRECTED.with(|d| d.set(false));
+    }
+    if rep.violated() {
+        return;
+    }
+    run_dfs(ctx, rep, &world);
+    if rep.violated() {
+        return;
+    }
+    run_prop(ctx, rep, "sched", ctx.tier.pick(80, 1_000), case_strategy(false), |c, i| prop_sched(&world, c, i));
+    flush_excluded(rep);
+    if rep.violated() {
+        return;
+    }
+    run_prop_salted(ctx, rep, "sched", "sched-rrdp", ctx.tier.pick(600, 6_000), case_strategy(true), |c, i| prop_sched(&world, c, i));
+    if rep.violated() {
+        return;
+    }
+    run_stress(ctx, rep);
+    if rep.violated() {
+        return;
+    }
+    run_prop(ctx, rep, "engine", ctx.tier.pick(6, 60), engine_strategy(), |c, i| prop_engine(ctx, c, i));
 }
